@@ -27,6 +27,8 @@ import (
 	"time"
 
 	"github.com/dgraph-io/badger/v4"
+
+	"github.com/mimiro-io/datahub/internal/verifhook"
 )
 
 type fullSyncLease struct {
@@ -119,9 +121,11 @@ func (ds *Dataset) RefreshFullSyncLease(fullSyncID string) error {
 			}
 
 			go func() {
+				verifhook.Go(ds.store.database, "fullsync.lease")
 				currentFsID := ds.fullSyncID
 
 				<-ctx.Done()
+				verifhook.Point(ds.store.database, "fullsync.lease.fired")
 				endTime, ok := ctx.Deadline()
 				// time out was the cause
 				now := time.Now()
@@ -195,6 +199,7 @@ func (ds *Dataset) CompleteFullSync(ctx context.Context) error {
 	}
 
 	// store remaining
+	verifhook.Point(ds.store.database, "CompleteFullSync.beforeDeleteBatch")
 	if len(deleteBatch) > 0 {
 		err := ds.StoreEntities(deleteBatch)
 		if err != nil {
@@ -223,12 +228,14 @@ func (ds *Dataset) StoreEntities(entities []*Entity) (Error error) {
 		return nil
 	}
 
+	verifhook.Acquire(ds.store.database, "dataset.write", ds)
 	ds.WriteLock.Lock()
 	writeLockStart := time.Now()
 	// release lock at end regardless
 	defer func() {
 		_ = ds.store.statsdClient.Timing("ds.writeLock.time", time.Since(writeLockStart), tags, 1)
 		ds.WriteLock.Unlock()
+		verifhook.Release(ds.store.database, "dataset.write", ds)
 	}()
 
 	// need this to ensure time moves forward in high perf environments.
@@ -243,20 +250,30 @@ func (ds *Dataset) StoreEntities(entities []*Entity) (Error error) {
 		return err
 	}
 
+	verifhook.Point(ds.store.database, "StoreEntities.beforeIDCommit")
+	if ferr := verifhook.Fault(ds.store.database, "StoreEntities.idCommit"); ferr != nil {
+		return ferr
+	}
 	err = ds.store.commitIDTxn()
 	if err != nil {
 		return err
 	}
 
+	verifhook.Point(ds.store.database, "StoreEntities.afterIDCommit")
+	if ferr := verifhook.Fault(ds.store.database, "StoreEntities.dataCommit"); ferr != nil {
+		return ferr
+	}
 	err = txn.Commit()
 	if err != nil {
 		return err
 	}
 
+	verifhook.Point(ds.store.database, "StoreEntities.afterDataCommit")
 	err = ds.updateDataset(newitems, entities)
 	if err != nil {
 		return err
 	}
+	verifhook.Point(ds.store.database, "StoreEntities.afterUpdateDataset")
 
 	return nil
 }
@@ -309,6 +326,7 @@ func (ds *Dataset) StoreEntitiesWithTransaction(
 	defer rtxn.Discard()
 
 	for batchSeqNum, e := range entities {
+		verifhook.Point(ds.store.database, "StoreEntitiesWithTransaction.entity")
 
 		// entityIDBuffer buffer for lookup in main index
 		// index_id;rid;dataset;time => blob
@@ -815,6 +833,7 @@ func (ds *Dataset) updateDataset(newItemCount int64, entities []*Entity) error {
 				count = newItemCount
 			}
 			dsEntity.Properties[dsInfo.ItemsKey] = count
+			verifhook.Point(ds.store.database, "updateDataset.beforeStore")
 			tds, ok := ds.store.datasets.Load("core.Dataset")
 			if ok {
 				_ = tds.(*Dataset).StoreEntities([]*Entity{dsEntity})
